@@ -669,6 +669,17 @@ func (vc *FnVC) checkAts(st *State, in ssa.Instruction) {
 			txt = t
 		}
 	}
+	if mu, ok := in.(*ssa.MapUpdate); ok {
+		if t := vc.G.stmtAt(mu.Pos()); t != "" {
+			txt = t
+		}
+	}
+	if bo, ok := in.(*ssa.BinOp); ok {
+		// the operation of `x op= y` is identified by that statement
+		if t := vc.G.opAssignAt(bo.Pos()); t != "" {
+			txt = t
+		}
+	}
 	if os.Getenv("GOVC_DEBUG_AT") != "" {
 		fmt.Fprintf(os.Stderr, "at-text %T %q\n", in, txt)
 	}
@@ -677,6 +688,9 @@ func (vc *FnVC) checkAts(st *State, in ssa.Instruction) {
 			continue
 		}
 		if _, isCall := in.(ssa.CallInstruction); a.CallOnly && !isCall {
+			continue
+		}
+		if _, isMU := in.(*ssa.MapUpdate); a.MapOnly && !isMU {
 			continue
 		}
 		key := fmt.Sprintf("%p|%s|%d", in, a.Text, ai)
@@ -700,6 +714,9 @@ func (vc *FnVC) checkAts(st *State, in ssa.Instruction) {
 			for _, av := range ci.Common().Args {
 				env.callArgs = append(env.callArgs, vc.val(st, av))
 			}
+		}
+		if mu, isMU := in.(*ssa.MapUpdate); isMU {
+			env.callArgs = []*Val{vc.val(st, mu.Map), vc.val(st, mu.Key), vc.val(st, mu.Value)}
 		}
 		t, err := vc.evalBool(env, a.C.E)
 		if err != nil {
